@@ -229,7 +229,7 @@ fn search_with<D: Distance<Vec<f64>, f64>>(case: &SearchCase, dist: D, ctx: &mut
     Ok(())
 }
 
-fn check_search(case: &SearchCase, ctx: &mut Ctx) -> Result<(), Fail> {
+pub fn check_search(case: &SearchCase, ctx: &mut Ctx) -> Result<(), Fail> {
     let n = case.data.len();
     ctx.label(format!("class:{}", case.class));
     ctx.label(format!("metric:{:?}", case.metric));
